@@ -24,6 +24,13 @@ for cfg, prog in facts.load_many(list(facts.CONFIGS)).items():
         allp.add(f.path)
 json.dump(sorted(allp), open(os.path.join(os.path.dirname(os.path.abspath(__file__)), "sa", "ref_fns.json"), "w"), indent=0)
 print(len(allp), "function paths")
+from sa import rename as _rename
+rsig = {}
+for cfg, prog in facts.load_many(list(facts.CONFIGS)).items():
+    for sg in prog.raw["sigs"]:
+        rsig[sg["path"]] = _rename.sig_key(sg)
+json.dump(rsig, open(os.path.join(os.path.dirname(os.path.abspath(__file__)), "sa", "ref_sigs.json"), "w"), indent=0, sort_keys=True)
+print(len(rsig), "signatures")
 
 impls = {}
 for cfg, prog in facts.load_many(list(facts.CONFIGS)).items():
